@@ -13,7 +13,14 @@ Strata beyond the base workload (each with its own counters and gates): delegate
 that define equality (a swap to a distinct but EQUAL delegate must be followed
 like any other swap), and deferring traits that override an alternative
 declaration of the same name (re-declared in a subclass / first of two bases):
-the forwarder must follow the declaration that governs reads and writes.
+the forwarder must follow the declaration that governs reads and writes; and
+delegate references that are COMPUTED rather than stored (the name the deferring
+trait goes through is a Property, cached or not, announcing its changes with
+depends_on / observe, directly on a source trait or through a holder object; or
+is itself a DelegatesTo / PrototypedFrom into a holder object; or is an Instance
+whose value comes from a dynamic default): the current delegate is whatever the
+reference reads as, and it is re-pointed by changing what the reference is
+computed from (own extra histories, so that the base workload is unchanged).
 """
 import collections
 import copy as copy_module
@@ -22,7 +29,7 @@ import pickle
 from traits.api import (
     HasTraits, Instance, Int, Range, Str, CInt, Enum, Any, TraitError,
     DelegatesTo, PrototypedFrom, DelegationError, push_exception_handler,
-    ComparisonMode,
+    ComparisonMode, Property, cached_property,
 )
 from traits.observation.api import (
     push_exception_handler as obs_push_exception_handler,
@@ -47,7 +54,17 @@ META = {
              "equal / all delegates equal; hashable or __hash__ = None) and the reference trait has "
              "comparison_mode {default, none, identity, equality}, swaps there are steered towards a "
              "DISTINCT candidate that compares EQUAL to the current delegate (the assignment that makes "
-             "it equal is issued first); recorders {on_trait_change, "
+             "it equal is issued first); stratum computed delegate reference (extra histories, "
+             "quick 5600 / thorough 100000, all else as above but identity equality and plain "
+             "declarations): at one or both levels the reference the deferring trait names is not a "
+             "stored Instance but a Property (cached / uncached x depends_on / observe, computed from a "
+             "source trait of the same object or from source.ref of a holder object), a DelegatesTo / "
+             "PrototypedFrom into a holder object (re-pointed by assigning holder.ref, by assigning the "
+             "reference itself - which for PrototypedFrom makes it local - by deleting that local value, "
+             "or by replacing the holder), or an Instance with a dynamic default; sub-strata: swaps of an "
+             "UNCACHED Property reference allowed / never drawn, replacement of the holder of a DEFERRED "
+             "reference (incl. a holder given to the constructor and round trips) allowed / never drawn "
+             "(each an open finding with its own key); recorders {on_trait_change, "
              "observe, both, none} on every deferring attribute.  Ops: assign through a deferring "
              "attribute (valid, coerced or invalid), assign the target on any terminal, swap a "
              "delegate reference (to either candidate, or to None and back), del a local value, "
@@ -96,7 +113,22 @@ META = {
                   "must_redeclared_redeclares": 3800, "must_redeclared_reback": 3800,
                   "must_redeclared_mixin": 3800, "none_redeclared_elsewhere": 11500,
                   "swap_other_ref_checked": 950, "decoy_assign_checked": 3200,
-                  "decoy_assign_on_middle": 110},
+                  "decoy_assign_on_middle": 110,
+                  "histories_computed_ref": 5000, "must_computed_ref": 9500,
+                  "must_computed_ref_DelegatesTo": 7500, "must_computed_ref_PrototypedFrom": 1900,
+                  "must_ref_cached_property": 3300, "must_ref_uncached_property": 3200,
+                  "must_ref_deferred": 1900, "must_ref_dynamic_default": 1650,
+                  "must_after_swap_computed_ref": 800, "must_after_del_computed_ref": 650,
+                  "must_after_del_ref_cached_property": 200, "must_after_del_ref_deferred": 140,
+                  "must_after_del_ref_uncached_property": 170,
+                  "must_after_roundtrip_computed_ref": 3000,
+                  "none_linkbroken_computed_ref": 4200, "none_linkbroken_ref_cached_property": 1600,
+                  "none_linkbroken_ref_deferred": 900, "none_linkbroken_ref_uncached_property": 1500,
+                  "none_former_computed_ref": 7000, "none_former_ref_cached_property": 2500,
+                  "none_former_ref_deferred": 1450, "swap_computed_ref": 3600,
+                  "swap_how_src": 2000, "swap_how_holder": 450, "swap_how_p": 350,
+                  "swap_how_unlocal": 100, "reentrant_must_computed_ref": 2500,
+                  "computed_ref_judged_in_finding_substratum": 4000},
         "thorough": {"evaluations": 4500000, "ops": 1650000, "notify_must_checked": 480000,
                      "notify_none_checked": 2200000, "invalid_checked": 100000, "del_checked": 90000,
                      "swap_checked": 220000, "chain_ops": 800000, "must_after_swap": 85000,
@@ -125,7 +157,22 @@ META = {
                      "must_redeclared_redeclares": 58000, "must_redeclared_reback": 58000,
                      "must_redeclared_mixin": 58000, "none_redeclared_elsewhere": 180000,
                      "swap_other_ref_checked": 15000, "decoy_assign_checked": 50000,
-                     "decoy_assign_on_middle": 1600},
+                     "decoy_assign_on_middle": 1600,
+                     "histories_computed_ref": 90000, "must_computed_ref": 200000,
+                     "must_computed_ref_DelegatesTo": 160000, "must_computed_ref_PrototypedFrom": 39000,
+                     "must_ref_cached_property": 70000, "must_ref_uncached_property": 68000,
+                     "must_ref_deferred": 42000, "must_ref_dynamic_default": 36000,
+                     "must_after_swap_computed_ref": 21000, "must_after_del_computed_ref": 14500,
+                     "must_after_del_ref_cached_property": 4600, "must_after_del_ref_deferred": 3100,
+                     "must_after_del_ref_uncached_property": 4400,
+                     "must_after_roundtrip_computed_ref": 75000,
+                     "none_linkbroken_computed_ref": 93000, "none_linkbroken_ref_cached_property": 36000,
+                     "none_linkbroken_ref_deferred": 20000, "none_linkbroken_ref_uncached_property": 35000,
+                     "none_former_computed_ref": 155000, "none_former_ref_cached_property": 59000,
+                     "none_former_ref_deferred": 34000, "swap_computed_ref": 79000,
+                     "swap_how_src": 45000, "swap_how_holder": 10000, "swap_how_p": 7600,
+                     "swap_how_unlocal": 2000, "reentrant_must_computed_ref": 55000,
+                     "computed_ref_judged_in_finding_substratum": 95000},
     },
     "assumptions": [
         "reading a plain (non-deferred) trait and obj.__dict__ are trusted observation channels",
@@ -142,6 +189,9 @@ META = {
         "which state a pickle / deepcopy / clone_traits copy preserves is not this property's "
         "subject (C14): the copy's cells are adopted by observation, only its behaviour "
         "afterwards is judged",
+        "with a computed delegate reference the current delegate is the object the reference "
+        "reads as (read back as a trusted channel after every op); a reference that does not "
+        "announce its changes (a Property without depends_on / observe) is outside the workload",
     ],
 }
 
@@ -282,6 +332,60 @@ def eq_namespace(eqmode, keyattr):
     return ns
 
 
+# How the delegate reference `p` of a deferring class gets its value:
+#   stored                    Instance(HasTraits), assigned
+#   prop-[cached-]depends_on  Property (cached or not) announcing itself with depends_on /
+#   prop-[cached-]observe     observe=, computed from the trait `src` (via "direct") or from
+#                             `src.ref` of a holder object (via "holder")
+#   deleg / proto             p is itself DelegatesTo / PrototypedFrom('src', prefix='ref')
+#                             into a holder object
+#   dyndefault                Instance(HasTraits) whose first value comes from _p_default
+REFKINDS = ["stored", "prop-cached-depends_on", "prop-cached-observe", "prop-depends_on",
+            "prop-observe", "deleg", "proto", "dyndefault"]
+REF_FAMILY = {"stored": "stored", "prop-cached-depends_on": "cached-property",
+              "prop-cached-observe": "cached-property", "prop-depends_on": "uncached-property",
+              "prop-observe": "uncached-property", "deleg": "deferred", "proto": "deferred",
+              "dyndefault": "dynamic-default"}
+UNCACHED = ("prop-depends_on", "prop-observe")
+DEFERRED = ("deleg", "proto")
+DYN_DEFAULT = {}       # id(object) / "next" -> the delegate its dynamic default hands out
+
+
+class RefHolder(HasTraits):
+    """Object a computed delegate reference is read from."""
+    ref = Instance(HasTraits)
+
+
+def _dyn_default(self):
+    return DYN_DEFAULT.get(id(self), DYN_DEFAULT.get("next"))
+
+
+def _make_getter(via):
+    if via == "direct":
+        def _get_p(self):
+            return self.src
+    else:
+        def _get_p(self):
+            holder = self.src
+            return None if holder is None else holder.ref
+    return _get_p
+
+
+def reference_namespace(refkind, via, kw):
+    if refkind == "stored":
+        return {"p": Instance(HasTraits, **kw)}
+    if refkind == "dyndefault":
+        return {"p": Instance(HasTraits), "_p_default": _dyn_default}
+    if refkind in DEFERRED:
+        T = DelegatesTo if refkind == "deleg" else PrototypedFrom
+        return {"src": Instance(RefHolder, ()), "p": T("src", prefix="ref")}
+    getter = _make_getter(via)
+    announce = {"observe" if refkind.endswith("observe") else "depends_on":
+                "src" if via == "direct" else "src.ref"}
+    return {"src": Instance(HasTraits), "p": Property(**announce),
+            "_get_p": cached_property(getter) if "cached" in refkind else getter}
+
+
 def declaration(decl):
     """decl = (kind, reference name, style, explicit name, listenable); kind 'V' is an
     ordinary value trait (only as the alternative declaration of a base class)."""
@@ -302,16 +406,18 @@ def declaration(decl):
 
 
 def deferrer_class(kind, style, listen, attr, named, cls_prefix, inherit=False,
-                   shape="plain", alt=None, decoys=(), eqmode="identity", refcmp="default"):
+                   shape="plain", alt=None, decoys=(), eqmode="identity", refcmp="default",
+                   refkind="stored", via="direct"):
     """inherit: the instantiated class is an empty subclass; __prefix__ and the
     deferring trait are defined on its base class(es)."""
     key = ("D", kind, style, listen, attr, named, cls_prefix, inherit,
-           shape, alt, decoys, eqmode, refcmp)
+           shape, alt, decoys, eqmode, refcmp, refkind, via)
     cls = _cls_cache.get(key)
     if cls is None:
         real = (kind, "p", style, named, listen)
         kw = {} if REFCMP[refcmp] is None else {"comparison_mode": REFCMP[refcmp]}
-        ns = {"__prefix__": cls_prefix, "p": Instance(HasTraits, **kw)}
+        ns = {"__prefix__": cls_prefix}
+        ns.update(reference_namespace(refkind, via, kw))
         if shape != "plain":
             ns["o"] = Instance(HasTraits)       # the reference an alternative declaration may use
         for d in decoys:
@@ -381,6 +487,12 @@ class Defer:
         self.via_none = False    # its reference was cleared (None) and set again
         self.eqswap = False      # its reference was last re-pointed to a distinct object that compared equal
         self.shape = "plain"     # how its class comes by the deferring trait (SHAPES)
+        self.refkind = "stored"  # how its delegate reference gets its value (REFKINDS)
+        self.via = "direct"      # Property reference: computed from src / from src.ref
+        self.holder_ref = None   # deferred reference: node the holder's `ref` points to
+        self.ref_local = False   # PrototypedFrom reference: assigned locally
+        self.repointed = False   # its reference was re-pointed to another object / None
+        self.holder_replaced = False   # deferred reference: the holder object was replaced
         self.kinds = ""          # e.g. "D>P": kinds from this level down
 
 
@@ -511,8 +623,9 @@ def round_trip(how, objs):
 
 
 class History:
-    def __init__(self, ctx, hid, rng):
+    def __init__(self, ctx, hid, rng, computed=False):
         self.ctx, self.hid, self.rng = ctx, hid, rng
+        self.computed = computed     # stratum: computed delegate references
         self.log = []            # (node serial, mechanism, name, new)
         self.trace = []
         self.terms, self.defs, self.mechs = [], [], ()
@@ -604,20 +717,44 @@ class History:
         self.mid_decoys = ()
         if self.depth == 2 and self.shape[0] != "plain":
             self.mid_decoys = tuple(d for d in self.decoys if d != names[1])
+        # stratum: computed delegate references (drawn last: the histories of the base
+        # workload are those of the same id without this stratum)
+        self.refkind, self.via = ["stored"] * self.depth, ["direct"] * self.depth
+        self.uncached_swap_ok = self.holder_swap_ok = True
+        if self.computed:
+            self.eqmode, self.refcmp = "identity", "default"
+            self.shape, self.alt = ["plain"] * self.depth, [None] * self.depth
+            self.redeclared, self.mid_decoys = False, ()
+            while all(k == "stored" for k in self.refkind):
+                self.refkind = [rng.choice(REFKINDS[1:]) if rng.random() < 0.7 else "stored"
+                                for _ in range(self.depth)]
+            self.via = [rng.choice(["direct", "holder"]) for _ in range(self.depth)]
+            # sub-strata around the two open findings of this family: re-pointing an
+            # UNCACHED Property reference; replacing the holder object of a DEFERRED one
+            self.uncached_swap_ok = rng.random() < 0.5
+            self.holder_swap_ok = rng.random() < 0.5
+        self.has_deferred_ref = any(k in DEFERRED for k in self.refkind)
+        self.roundtrip_ok = self.holder_swap_ok or not self.has_deferred_ref
 
     def brief(self):
-        return "%s|%s|%s|%s|%s|%s" % (">".join("%s:%s:%d" % lv for lv in self.levels),
-                                      ",".join(self.tts), self.mix,
-                                      "".join("i" if i else "-" for i in self.inherit),
-                                      ",".join(self.shape), self.eqmode + ":" + self.refcmp)
+        out = "%s|%s|%s|%s|%s|%s" % (">".join("%s:%s:%d" % lv for lv in self.levels),
+                                     ",".join(self.tts), self.mix,
+                                     "".join("i" if i else "-" for i in self.inherit),
+                                     ",".join(self.shape), self.eqmode + ":" + self.refcmp)
+        if self.computed:
+            out += "|ref=" + ">".join("%s:%s" % kv for kv in zip(self.refkind, self.via))
+        return out
 
     def describe(self):
         return {"depth": self.depth,
                 "levels": [{"kind": KIND_NAME[k], "style": s, "listenable": l,
                             "class": "inherits traits and __prefix__" if inh else "defines them",
-                            "declaration": sh, "alternative_declaration": alt}
-                           for (k, s, l), inh, sh, alt in zip(self.levels, self.inherit,
-                                                              self.shape, self.alt)],
+                            "declaration": sh, "alternative_declaration": alt,
+                            "delegate_reference": rk if rk in ("stored", "dyndefault") or rk in DEFERRED
+                            else rk + " from " + ("src" if via == "direct" else "src.ref")}
+                           for (k, s, l), inh, sh, alt, rk, via in zip(
+                               self.levels, self.inherit, self.shape, self.alt,
+                               self.refkind, self.via)],
                 "delegate_equality": self.eqmode, "reference_comparison_mode": self.refcmp,
                 "names": self.names, "terminal_types": self.tts, "prefixes": self.pref[:self.depth],
                 "recorders": self.mix, "late_ref": self.late_ref, "ctor_local": self.ctor_local,
@@ -626,6 +763,9 @@ class History:
                            "del_unlistenable": self.del_unlistenable_ok,
                            "hook_delegateless_middle": self.hook_delegateless_ok,
                            "reentrant_handlers": self.react_mech if self.reentrant else False,
+                           "computed_reference": self.computed,
+                           "uncached_reference_swaps": self.uncached_swap_ok,
+                           "deferred_reference_holder_replaced": self.holder_swap_ok,
                            "prefixdiff": self.prefixdiff}}
 
     # -- construction -------------------------------------------------------
@@ -633,6 +773,7 @@ class History:
         rng = self.rng
         named = ["y", "z"]
         self.terms = []
+        DYN_DEFAULT.clear()
         for i in range(2):
             t = Term(i, self.tts[i], self.names[-1])
             cls = terminal_class(t.target, t.tt, self.decoys, self.eqmode)
@@ -650,7 +791,8 @@ class History:
             kind, style, listen = self.levels[lv]
             cls = deferrer_class(kind, style, listen, self.names[lv], named[lv], self.pref[lv],
                                  self.inherit[lv], self.shape[lv], self.alt[lv],
-                                 self.mid_decoys if lv == 1 else (), self.eqmode, self.refcmp)
+                                 self.mid_decoys if lv == 1 else (), self.eqmode, self.refcmp,
+                                 self.refkind[lv], self.via[lv])
             count = 1 if lv == 0 else 2
             row = []
             for i in range(count):
@@ -660,8 +802,15 @@ class History:
                 d.shape = self.shape[lv]
                 serial += 1
                 d.ref = rng.choice(below)
+                d.refkind, d.via = self.refkind[lv], self.via[lv]
                 kw = {}
-                if lv == 0 and self.ctor_local:
+                if d.refkind != "stored":
+                    if lv == 0 and self.ctor_local:
+                        raw = rng.choice(TT_VALID[m_terminal(d).tt])
+                        d.local = ref_validate(m_terminal(d).tt, raw)
+                        kw = {d.attr: raw}
+                    d.obj = self.construct_computed(cls, d, kw)
+                elif lv == 0 and self.ctor_local:
                     raw = rng.choice(TT_VALID[m_terminal(d).tt])
                     d.local = ref_validate(m_terminal(d).tt, raw)
                     kw = {"p": d.ref.obj, d.attr: raw}
@@ -683,6 +832,33 @@ class History:
         self.decoy_vals = {(n.serial, dn): "decoy:" + dn for n, dns in self.decoy_owners for dn in dns}
         self.mechs = {"both": ("otc", "obs"), "otc": ("otc",), "obs": ("obs",), "none": ()}[self.mix]
         self.attach_recorders()
+
+    def construct_computed(self, cls, d, local_kw):
+        """A deferring object whose delegate reference is computed: what the reference is
+        computed from is given to the constructor, or assigned afterwards (late_ref)."""
+        tobj = d.ref.obj
+        if d.refkind == "dyndefault":
+            DYN_DEFAULT["next"] = tobj
+            obj = cls(**local_kw)
+            DYN_DEFAULT[id(obj)] = tobj     # should the default not have been asked for yet
+            return obj
+        if d.refkind in DEFERRED:
+            d.holder_ref = d.ref
+            if self.holder_swap_ok and not self.late_ref:
+                # the holder given to the constructor replaces the default holder
+                d.holder_replaced = True
+                return cls(src=RefHolder(ref=tobj), **local_kw)
+            obj = cls()
+            obj.src.ref = tobj
+            for name, raw in local_kw.items():
+                setattr(obj, name, raw)
+            return obj
+        srcval = tobj if d.via == "direct" else RefHolder(ref=tobj)
+        if self.late_ref:
+            obj = cls()
+            obj.src = srcval
+            return obj
+        return cls(src=srcval, **local_kw)
 
     def attach_recorders(self):
         """Recorders on every deferring attribute of the current objects (the
@@ -757,6 +933,56 @@ class History:
         if self.prefixdiff and node is self.front:
             return "midstar-prefixdiff"
         return kinds_from(node)
+
+    def nkey(self, key, d):
+        """Key of a notification violation on deferring node d.  With computed delegate
+        references on the way the key names their families; the two open findings of
+        that family (a re-pointed UNCACHED Property reference; a DEFERRED reference whose
+        holder object was replaced) have one key each."""
+        chain = ref_chain(d)
+        if all(l.refkind == "stored" for l in chain):
+            return key
+        if any(l.refkind in UNCACHED and l.repointed for l in chain):
+            return "notify/uncached-property-reference/re-pointed/forwarder-not-moved"
+        if any(l.refkind in DEFERRED and l.holder_replaced for l in chain):
+            return "notify/deferred-reference/holder-replaced/forwarder-not-moved"
+        return key + "/ref=" + "+".join(sorted({REF_FAMILY[l.refkind] for l in chain} - {"stored"}))
+
+    def count_computed(self, d, levels, verdict, why):
+        """Counters of the computed-reference stratum for one judged (attribute, mechanism)."""
+        ctx = self.ctx
+        fams = sorted({REF_FAMILY[l.refkind].replace("-", "_") for l in levels} - {"stored"})
+        if not fams:
+            return
+        folded = any((l.refkind in UNCACHED and l.repointed) or
+                     (l.refkind in DEFERRED and l.holder_replaced) for l in ref_chain(d))
+        if folded:
+            ctx.count("computed_ref_judged_in_finding_substratum")
+            return
+        if verdict == "must":
+            ctx.count("must_computed_ref")
+            ctx.count("must_computed_ref_" + KIND_NAME[d.kind])
+            for f in fams:
+                ctx.count("must_ref_" + f)
+            if any(l.swapped for l in levels if l.refkind != "stored"):
+                ctx.count("must_after_swap_computed_ref")
+            if any(l.deleted for l in levels if l.refkind != "stored"):
+                ctx.count("must_after_del_computed_ref")
+                for f in sorted({REF_FAMILY[l.refkind].replace("-", "_") for l in levels
+                                 if l.deleted} - {"stored"}):
+                    ctx.count("must_after_del_ref_" + f)
+            if d.copied:
+                ctx.count("must_after_roundtrip_computed_ref")
+        else:
+            ctx.count("none_computed_ref")
+            if why == "link-broken":
+                ctx.count("none_linkbroken_computed_ref")
+                for f in fams:
+                    ctx.count("none_linkbroken_ref_" + f)
+            elif why == "not-current-delegate":
+                ctx.count("none_former_computed_ref")
+                for f in fams:
+                    ctx.count("none_former_ref_" + f)
 
     # -- observation --------------------------------------------------------
     def check_state(self, op, node, what_stored, what_read):
@@ -844,8 +1070,10 @@ class History:
                         ctx.count("none_redeclared")
                         if why in ("not-current-delegate", "unrelated-attribute", "unrelated-reference"):
                             ctx.count("none_redeclared_elsewhere")
+                    if self.computed:
+                        self.count_computed(d, ref_chain(d), "none", why)
                     if calls:
-                        self.fail("notify/spurious/%s/%s" % (kk, why),
+                        self.fail(self.nkey("notify/spurious/%s/%s" % (kk, why), d),
                                   "%s handler of %s.%s called %r after %s although %s"
                                   % (mech, d.label, d.attr, calls, op, why))
                 elif verdict == "must":
@@ -877,22 +1105,24 @@ class History:
                         for l in levels:
                             if l.shape != "plain":
                                 ctx.count("must_redeclared_" + l.shape)
+                    if self.computed:
+                        self.count_computed(d, levels, "must", "")
                     if not calls:
                         missed_below.add(d.serial)
-                        self.fail("notify/missing/%s" % kk,
+                        self.fail(self.nkey("notify/missing/%s" % kk, d),
                                   "%s handler of %s.%s not called after %s (new value %r); linked levels %s"
                                   % (mech, d.label, d.attr, op, new,
                                      [(KIND_NAME[l.kind], l.style) for l in levels]))
                     if len(calls) > 1:
-                        self.fail("notify/duplicate/%s" % kk,
+                        self.fail(self.nkey("notify/duplicate/%s" % kk, d),
                                   "%s handler of %s.%s called %d times after %s: %r"
                                   % (mech, d.label, d.attr, len(calls), op, calls))
                     name, v = calls[0]
                     if not same_value(v, new):
-                        self.fail("notify/wrong-new/%s" % kk,
+                        self.fail(self.nkey("notify/wrong-new/%s" % kk, d),
                                   "%s handler of %s.%s got new=%r, value is %r" % (mech, d.label, d.attr, v, new))
                     if name != d.attr:
-                        self.fail("notify/wrong-name/%s" % kk,
+                        self.fail(self.nkey("notify/wrong-name/%s" % kk, d),
                                   "%s handler of %s.%s got name %r" % (mech, d.label, d.attr, name))
                 else:
                     ctx.count("notify_unjudged")
@@ -960,7 +1190,7 @@ class History:
             if cleared and rng.random() < 0.6:
                 node = rng.choice(cleared)      # point a cleared reference at a candidate again
             elif rng.random() < 0.25:
-                return ("swap", node.label, None)      # clear the reference
+                return self.with_how(("swap", node.label, None))      # clear the reference
             if node.shape != "plain" and rng.random() < 0.3:
                 # re-point the reference only an alternative declaration names
                 return ("swap_o", node.label, rng.choice([0, 1, 0, 1, None]))
@@ -972,7 +1202,7 @@ class History:
                     return ("read",)
             if self.eqmode != "identity" and rng.random() < 0.7:
                 return self.steer_equal_swap(node, idx)
-            return ("swap", node.label, idx)
+            return self.with_how(("swap", node.label, idx))
         if r < 0.93:
             ps = [d for d in self.defs if d.kind == "P" and (d.listen or self.del_unlistenable_ok)
                   and m_terminal(d) is not None]
@@ -980,7 +1210,8 @@ class History:
                 with_local = [d for d in ps if d.local is not ABSENT]
                 node = rng.choice(with_local) if with_local and rng.random() < 0.8 else rng.choice(ps)
                 return ("del", node.label)
-        if rng.random() < 0.75 and (self.hook_delegateless_ok or not delegateless(self.front.ref)):
+        if rng.random() < 0.75 and (self.hook_delegateless_ok or not delegateless(self.front.ref)) \
+                and self.roundtrip_ok:
             # the whole structure goes through a copy; the history continues on the copy
             return ("roundtrip", rng.choice(ROUNDTRIPS))
         if rng.random() < 0.5:
@@ -988,6 +1219,71 @@ class History:
             n, dns = rng.choice(self.decoy_owners)
             return ("assign_decoy", n.label, rng.choice(dns), rng.choice(DECOY_VALUES))
         return ("read",)
+
+    def with_how(self, op):
+        """A swap of a COMPUTED delegate reference names the way it is re-pointed:
+        src     assign what the reference is computed from (src, or src.ref of the holder)
+        holder  replace the holder object by another one carrying the new delegate
+        p       assign the reference itself (deferred references: DelegatesTo stores into
+                the holder, PrototypedFrom makes the reference a local value)
+        unlocal delete the local value of a PrototypedFrom reference (back to the holder's)"""
+        node = self.node(op[1])
+        k = node.refkind
+        if k in ("stored", "dyndefault"):
+            return op
+        if k in UNCACHED and not self.uncached_swap_ok:
+            return ("read",)
+        if k in DEFERRED:
+            opts = ["src", "src", "p"]
+            if self.holder_swap_ok:
+                opts += ["holder", "holder"]
+            if k == "proto":
+                opts += ["p"]
+                if self.hook_delegateless_ok or node is not self.front \
+                        or not delegateless(node.holder_ref):
+                    opts += ["unlocal"]
+        elif node.via == "holder":
+            opts = ["src", "src", "holder"]
+        else:
+            opts = ["src"]
+        return op + (self.rng.choice(opts),)
+
+    def model_repoint(self, node, requested, how):
+        """Interpreter side of a swap: the node that is the delegate afterwards."""
+        k = node.refkind
+        if k not in DEFERRED:
+            return requested
+        if how == "unlocal":
+            if k == "proto":
+                node.ref_local = False
+                return node.holder_ref
+            how = "src"
+        if how == "p":
+            if k == "proto":
+                node.ref_local = True
+            else:
+                node.holder_ref = requested
+            return requested
+        node.holder_ref = requested
+        if how == "holder":
+            node.holder_replaced = True
+        return node.ref if (k == "proto" and node.ref_local) else requested
+
+    def real_repoint(self, node, requested, how):
+        tobj = requested.obj if requested is not None else None
+        k, obj = node.refkind, node.obj
+        if k in ("stored", "dyndefault"):
+            obj.p = tobj
+        elif k in DEFERRED and how == "unlocal" and k == "proto":
+            del obj.p
+        elif k in DEFERRED and how == "p":
+            obj.p = tobj
+        elif k not in DEFERRED and node.via == "direct":
+            obj.src = tobj
+        elif how == "holder" or obj.src is None:
+            obj.src = RefHolder(ref=tobj)
+        else:
+            obj.src.ref = tobj
 
     def steer_equal_swap(self, node, idx):
         """A swap of node's reference to the OTHER candidate, preceded (when the candidates
@@ -1180,8 +1476,11 @@ class History:
             verdicts = self.structural_verdicts(node)
             UNDEF = object()
             before = m_read(node) if m_end(node)[1] is not None else UNDEF
-            target = node.cands[op[2]] if op[2] is not None else None
+            how = op[3] if len(op) > 3 else "p"
+            requested = node.cands[op[2]] if op[2] is not None else None
+            target = self.model_repoint(node, requested, how)
             repointed = node.ref is not target
+            node.repointed = node.repointed or repointed
             if node.ref is None and target is not None:
                 node.via_none = True
                 ctx.count("swap_from_none")
@@ -1198,8 +1497,15 @@ class History:
             node.ref = target
             node.swapped = node.swapped or (repointed and target is not None)
             tl = target.label if target is not None else None
+            if node.refkind != "stored":
+                tl = "%s (%s reference re-pointed by '%s' to %s)" % (
+                    tl, node.refkind, how, requested.label if requested is not None else None)
+                ctx.count("swap_computed_ref")
+                ctx.count("swap_ref_" + REF_FAMILY[node.refkind].replace("-", "_"))
+                if node.refkind != "dyndefault":
+                    ctx.count("swap_how_" + how)
             try:
-                node.obj.p = target.obj if target is not None else None
+                self.real_repoint(node, requested, how)
             except Exception as e:  # noqa: BLE001
                 self.fail("swap/%s/%s" % (type(e).__name__, kinds_from(self.front)),
                           "%s.p = %s raised %r" % (node.label, tl, e))
@@ -1334,27 +1640,29 @@ class History:
                     ctx.ev()
                     ctx.count("notify_none_checked")
                     if calls:
-                        self.fail("notify/spurious/%s/%s" % (kk, why),
+                        self.fail(self.nkey("notify/spurious/%s/%s" % (kk, why), d),
                                   "%s handler of %s.%s called %r after %s although %s"
                                   % (mech, d.label, d.attr, calls, what, why))
                 elif verdict == "must":
                     ctx.ev()
                     ctx.count("reentrant_must_checked")
+                    if self.computed:
+                        ctx.count("reentrant_must_computed_ref")
                     if len(m_end(d)[0]) > 1:
                         ctx.count("reentrant_must_through_chain")
                     told = collections.Counter((type(v).__name__, v) for _, v in calls)
                     owed = collections.Counter((type(v).__name__, v) for v in changes)
                     if owed - told:
-                        self.fail("notify/reentrant-missing/%s" % kk,
+                        self.fail(self.nkey("notify/reentrant-missing/%s" % kk, d),
                                   "%s handler of %s.%s was told %r after %s; changes %r: never told %r"
                                   % (mech, d.label, d.attr, [v for _, v in calls], what, changes,
                                      [v for _, v in (owed - told).elements()]))
                     if told - owed:
-                        self.fail("notify/reentrant-extra/%s" % kk,
+                        self.fail(self.nkey("notify/reentrant-extra/%s" % kk, d),
                                   "%s handler of %s.%s was told %r after %s; changes only %r"
                                   % (mech, d.label, d.attr, [v for _, v in calls], what, changes))
                     if any(n != d.attr for n, _ in calls):
-                        self.fail("notify/wrong-name/%s" % kk,
+                        self.fail(self.nkey("notify/wrong-name/%s" % kk, d),
                                   "%s handler of %s.%s got names %r" % (mech, d.label, d.attr, calls))
                     # not judged (dispatch order): was the value told last the current one?
                     ctx.count("reentrant_last_told_current" if same_value(calls[-1][1], changes[-1])
@@ -1418,6 +1726,16 @@ class History:
             d.local = local
             d.copied, d.swapped, d.deleted, d.via_none = family, False, False, False
             d.eqswap = False
+            d.repointed = False
+            if d.refkind in DEFERRED:
+                # the copy's holder replaces the default holder of the new object
+                holder = d.obj.src
+                held = None if holder is None or holder.ref is None else by_id.get(id(holder.ref))
+                if holder is None or (holder.ref is not None and held not in d.cands):
+                    ctx.count("roundtrip_unadoptable")
+                    raise EndQuietly()
+                d.holder_ref, d.holder_replaced = held, True
+                d.ref_local = d.refkind == "proto" and "p" in d.obj.__dict__
         self.attach_recorders()
         del self.log[:]
         if delegateless(self.front.ref):
@@ -1491,10 +1809,12 @@ def run(ctx):
     push_exception_handler(handler=_legacy_exc, reraise_exceptions=False, main=True)
     obs_push_exception_handler(handler=_obs_exc, reraise_exceptions=False)
     nh = ctx.scale(30000, 400000)
-    for h in range(nh):
+    # the histories of the computed-reference stratum follow those of the base workload
+    extra = ctx.scale(5600, 100000)
+    for h in range(nh + extra):
         if not ctx.mine(h):
             continue
-        hist = History(ctx, h, ctx.rng("h", h))
+        hist = History(ctx, h, ctx.rng("h", h), computed=h >= nh)
         if not ctx.begin("h:%d" % h, hist.brief()):
             continue
         try:
@@ -1504,6 +1824,10 @@ def run(ctx):
                 ctx.count("histories_redeclared")
             if hist.eqmode != "identity":
                 ctx.count("histories_eq_delegates")
+            if hist.computed:
+                ctx.count("histories_computed_ref")
+                for fam in sorted({REF_FAMILY[k] for k in hist.refkind} - {"stored"}):
+                    ctx.count("histories_ref_" + fam.replace("-", "_"))
             if stop is not None:
                 report(ctx, h, hist, stop)
             elif h < 3 * ctx.nshards:
@@ -1519,7 +1843,7 @@ def report(ctx, h, hist, stop):
     null = NullCtx(ctx)
 
     def fires(cand):
-        hh = History(null, h, ctx.rng("h", h))
+        hh = History(null, h, ctx.rng("h", h), computed=hist.computed)
         r = hh.run(cand)
         return (r, list(hh.trace)) if (r is not None and r.key == stop.key) else None
     best = stop
